@@ -149,9 +149,9 @@ def run(res, proof):
     for _ in range(nsys):
         S = sysgen.gen_system(rng)
         valid = sysgen.render(S, rng)
-        jobs.append({'text': valid, 'mode': 'outcome'}); labels.append(('valid', valid))
+        jobs.append({'text': valid, 'mode': 'outcome', 'again': True}); labels.append(('valid', valid))
         for kind, txt in sysgen.corruptions(S, rng, 8 if quick else 14):
-            jobs.append({'text': txt, 'mode': 'outcome', 'pre': valid if rng.random() < 0.3 else None})
+            jobs.append({'text': txt, 'mode': 'outcome', 'pre': valid if rng.random() < 0.3 else None, 'again': rng.random() < 0.5})
             labels.append(('fault:' + kind, txt))
         # multi-fault
         multi = valid
@@ -189,6 +189,17 @@ def run(res, proof):
             kind = o[4:]
             if kind not in reader.DECLARED:
                 faults.append((kind, txt, lab))
+        a = r.get('again')
+        if a is not None:
+            res.count('second_read_' + ('ok' if a == 'ok' else 'refused'))
+            if a != 'ok' and a[4:] not in reader.DECLARED:
+                res.violation('interpreter-fault:%s:second-read-of-the-same-text' % a[4:], {'text': txt, 'again': True}, 'first read: %s, second read: %s' % (o, a),
+                              'the result dictionary or a declared error, also when the same text is read again in the same session')
+            elif o == 'ok' and a != 'ok':
+                res.violation('second-read-of-an-accepted-text-refused:' + a[4:], {'text': txt, 'again': True}, 'first read: ok, second read: %s' % a,
+                              'an accepted text is accepted again while its objects are alive (they are the consistent singletons)')
+            elif o == 'ok' and r.get('again_line') != r.get('line'):
+                res.violation('second-read-differs', {'text': txt, 'again': True}, str(r.get('again_line'))[:300], str(r.get('line'))[:300])
         if lab == 'valid' and o != 'ok' and o[4:] in reader.DECLARED:
             res.violation('valid-document-rejected:' + o[4:], {'text': txt}, o, 'ok')
         if r.get('registry'):
@@ -276,6 +287,7 @@ def replay(body, repo):
         print('required :', body.get('required')); return 1
     if txt is None:
         print(body['input']); return 1
-    r = reader.read_job({'text': txt, 'mode': 'outcome', 'config': body['input'].get('config')})
-    print('text     :', repr(txt)); print('observed :', r['outcome']); print('required :', body.get('required'))
+    r = reader.read_job({'text': txt, 'mode': 'outcome', 'config': body['input'].get('config'), 'again': body['input'].get('again')})
+    print('text     :', repr(txt)); print('observed :', r['outcome'], ('| second read: %s' % r.get('again')) if 'again' in r else '')
+    print('required :', body.get('required'))
     return 1
